@@ -22,12 +22,12 @@ from vlib import Reporter, ToolError, log
 ALLK = ["bfs", "dfs", "pfsmin", "pfsmax", "pre", "post"]
 ALL4 = ["digraph", "sync_digraph", "ungraph", "sync_ungraph"]
 PROPS = {
-    "C04": dict(kinds=["bfs"], dirs=["out"], cyc=[False], flavours=ALL4),
-    "C05": dict(kinds=["dfs"], dirs=["out"], cyc=[False], flavours=ALL4),
+    "C04": dict(kinds=["bfs"], dirs=["out", "in"], cyc=[False], flavours=ALL4),
+    "C05": dict(kinds=["dfs"], dirs=["out", "in"], cyc=[False], flavours=ALL4),
     "C06": dict(kinds=["pfsmin", "pfsmax"], dirs=["out", "in"], cyc=[False], flavours=ALL4, cmp=True),
     "C07": dict(kinds=ALLK, dirs=["out", "in"], cyc=[False, True], flavours=ALL4, rej_quick="small", rej_thorough="all", nvals_quick=[0]),
     "C08": dict(kinds=ALLK, dirs=["out", "in"], cyc=[False, True], flavours=["digraph", "sync_digraph"], nvals_quick=[0, 1]),
-    "C09": dict(kinds=["bfs", "dfs", "pfsmin", "pfsmax"], dirs=["out"], cyc=[True], flavours=ALL4),
+    "C09": dict(kinds=["bfs", "dfs", "pfsmin", "pfsmax"], dirs=["out", "in"], cyc=[True], flavours=ALL4),
     "C10": dict(kinds=["pre", "post"], dirs=["out", "in"], cyc=[False], flavours=ALL4),
 }
 TIERS = {
